@@ -26,6 +26,8 @@ EXPLANATION = 'bounded-exhaustive program grammar; oracle = exhaustive enumerati
 
 VARS = ['x', 'y']
 BASE = [('asg', 'x'), ('asg', 'y'), ('rd', 'x'), ('rd', 'y'), ('cp', 'x', 'y'), ('cp', 'y', 'x'), ('cp', 'x', 'x')]
+# other spellings of an assignment: several targets at once, an annotated one, an augmented one (reads, then assigns)
+SPELL = [('chain', 'x', 'y'), ('ann', 'x'), ('aug', 'x'), ('unpack', 'x', 'y')]
 
 
 def _stmts(depth, maxlen):
@@ -71,6 +73,14 @@ def render(block, ind, lines):
             lines.append((ind + "print(%s)" % s[1], s))
         elif k == 'cp':
             lines.append((ind + "%s = %s" % (s[1], s[2]), s))
+        elif k == 'chain':
+            lines.append((ind + "%s = %s = 1" % (s[1], s[2]), s))
+        elif k == 'ann':
+            lines.append((ind + "%s: int = 1" % s[1], s))
+        elif k == 'aug':
+            lines.append((ind + "%s += 1" % s[1], s))
+        elif k == 'unpack':
+            lines.append((ind + "%s, %s = 1, 2" % (s[1], s[2]), s))
         elif k == 'if1':
             lines.append((ind + "if c:", None))
             render(s[1], ind + "    ", lines)
@@ -92,13 +102,16 @@ def paths(block, states):
             new = []
             for st in states:
                 asg, unread, reads = st['asg'], st['unread'], st['reads']
-                if k in ('rd', 'cp'):
-                    v = s[1] if k == 'rd' else s[2]
+                if k in ('rd', 'cp', 'aug'):
+                    v = s[2] if k == 'cp' else s[1]
                     reads = reads + ((id(s), v, v in asg),)
                     unread = unread - {v}
-                if k in ('asg', 'cp'):
+                if k in ('asg', 'cp', 'ann', 'aug'):
                     asg = asg | {s[1]}
                     unread = unread | {s[1]}
+                if k in ('chain', 'unpack'):
+                    asg = asg | {s[1], s[2]}
+                    unread = unread | {s[1], s[2]}
                 new.append(dict(asg=asg, unread=unread, reads=reads))
             # paths with identical state are merged (keeps the enumeration small; verdicts depend on the state only)
             seen = {}
@@ -373,6 +386,11 @@ def phases(tier):
     ph.append(Phase('exact-names', make_exact(d1, 2, names=True), setup=_setup, chunk=300,
                     describe='all sequences of <=2 depth-1 statements with the two variables under %d other pairs of names'
                              % (len(NAME_PAIRS) - 1)))
+    spell = list(BASE) + SPELL + [('if1', (b,)) for b in BASE[:4] + SPELL] + \
+        [('if', (t,), (e,)) for t in SPELL + [('rd', 'x')] for e in SPELL + [('rd', 'y'), ('asg', 'x')]]
+    ph.append(Phase('exact-spellings', make_exact(spell, 3 if tier == 'thorough' else 2), setup=_setup, chunk=300,
+                    describe='sequences over the base statements and other spellings of assignment (several targets, annotated, '
+                             'augmented, unpacking), plain and inside branches (%d statements)' % len(spell)))
     d1b = _stmts(1, 2)
     # reduced sets for sequences of three statements
     core3 = [('asg', 'x'), ('asg', 'y'), ('rd', 'x')]
